@@ -34,7 +34,7 @@ def bitmap_sectors(spb: int) -> int:
 
 
 def build(img, *, block_size=2 << 20, table_offset=1536, data_start=None, original_size=None, file_id=0, P=None,
-          size_bytes=None, extra_bat_entries=0, footer_kw=None, layout="std"):
+          size_bytes=None, extra_bat_entries=0, footer_kw=None, layout="std", bitmap_fill=0xFF):
     """img: {"kind","n","cb","bat","size","foot511"} -> (VirtualFile, info dict).
     footer_kw: footer fields that do not influence the mapping (features, uid, timestamp, geometry).
     layout: "std" footer copy | dynamic header | BAT | blocks | footer;  "bat-last" ... | blocks | BAT | footer (a table that was
@@ -77,7 +77,8 @@ def build(img, *, block_size=2 << 20, table_offset=1536, data_start=None, origin
     ext = [(0, 512, "bytes", ft), (dyn_offset, 1024, "bytes", dh), (table_offset, len(bat), "bytes", bat)]
     for p in range(npos):
         # sector bitmap: all sectors present (0xFF), then the block data
-        ext.append((data_start + p * stride, bm, "bytes", b"\xff" * bm))
+        # (an allocated block of a dynamic disk reads as its data whatever its sector bitmap says: writers leave it set, clear or stale)
+        ext.append((data_start + p * stride, bm, "bytes", bytes([bitmap_fill if isinstance(bitmap_fill, int) else bitmap_fill[p % len(bitmap_fill)]]) * bm))
         ext.append((data_start + p * stride + bm, block_size, "pat", file_id))
     end = data_start + npos * stride
     if layout != "std":
